@@ -350,6 +350,10 @@ def rest_rules(ctx):
     reuse(ctx, _c15.run, ("C15.carry",), "C10carry", "carry rule shared with C15: a row selection / concatenation that drops the set's dtype rebuilds coordinates and cached densities in the namespace's "
           "default width after they were evaluated in the requested one, so the stored values are no longer those of the stored coordinates",
           only=lambda f: ("__getitem__" in f.key or "concatenate" in f.key) and f.key.rsplit(" | ", 1)[-1] in ("dtype", "x", "log_likelihood", "log_prior", "log_q"))
+    from . import c04 as _c04
+    reuse(ctx, lambda c: _c04.run(c, shared=False), ("C04.deriv", "C04.anti", "C04.wrap"), "C10jac", "log-Jacobian rules shared with C04: the log-proposal stored with a draw is the flow's latent density plus the "
+          "data transform's log-Jacobian at that draw; a bounded transform whose reported log-Jacobian is not the log-derivative of its map makes the stored log_q differ from the proposal "
+          "evaluated at the stored coordinates")
     reuse(ctx, lambda c: c14.run(c, shared=False), ("C14.flow",), "C10file", "stale-flow rule shared with C14: after a resume log_q is recomputed with the flow stored in the file")
 
     # ------------------------------------------------------------ who may write x
@@ -633,6 +637,11 @@ MUTANTS += [
 
 MUTANTS += [
     M("debug diagnostic sorts the cached log-likelihood in place", "src/aspire/samplers/smc/base.py", "samples = self.mutate(samples, beta)\n                if store_sample_history:", "samples = self.mutate(samples, beta)\n                log_l = self.xp.asarray(samples.log_likelihood)\n                log_l.sort()\n                logger.debug(f\"median log-likelihood: {log_l[len(log_l) // 2]}\")\n                if store_sample_history:", "C10.own"),
+]
+
+MUTANTS += [
+    M("probit forward drops the unit-interval Jacobian", "src/aspire/transforms.py", "log_abs_det_jacobian = log_abs_det_jacobian + log_j_unit\n        return y, log_abs_det_jacobian\n\n    def inverse(self, y: Array) -> tuple[Array, Array]:\n        from scipy.special import erf",
+      "return y, log_abs_det_jacobian\n\n    def inverse(self, y: Array) -> tuple[Array, Array]:\n        from scipy.special import erf", "C10jac"),
 ]
 
 NEUTRALS = [
